@@ -379,6 +379,54 @@ func c16Incremental(x *mc.Exec) {
 	}
 }
 
+// c16Underscore: every subset of four two-way pairs chosen so that pairs owned
+// by the SAME type have the same underscore-joined name, in every type order.
+func c16Underscore(x *mc.Exec) {
+	types := []string{"a", "d", "c_d"}
+	pairs := [][4]string{ // owner, name, target, inverse
+		{"a", "b_c", "d", "e"},   // a_b_c_d_e
+		{"a", "b", "c_d", "e"},   // a_b_c_d_e
+		{"a", "e", "d", "b"},     // plain
+		{"d", "e_c", "c_d", "f"}, // d_e_c_c_d_f
+	}
+	mask := 1 + x.Choose(15, "pairs")
+	order := mc.Perm(3, x.Choose(6, "type order"))
+	byName := map[string]*j.Type{}
+	for _, t := range types {
+		byName[t] = &j.Type{Name: t, Attrs: map[string]j.Attr{}, Rels: map[string]j.Rel{}}
+	}
+	n := 0
+	desc := ""
+	for i, p := range pairs {
+		if mask&(1<<uint(i)) == 0 {
+			continue
+		}
+		if _, dup := byName[p[2]].Rels[p[3]]; dup {
+			return // the inverse name is taken by another chosen pair
+		}
+		r := j.Rel{FromType: p[0], FromName: p[1], ToOne: true, ToType: p[2], ToName: p[3], FromOne: true}
+		byName[p[0]].Rels[p[1]] = r
+		byName[p[2]].Rels[p[3]] = r.Invert()
+		n++
+		desc += fmt.Sprintf("%s.%s<->%s.%s ", p[0], p[1], p[2], p[3])
+	}
+	s := &j.Schema{}
+	for _, i := range order {
+		_ = s.AddType(*byName[types[i]])
+	}
+	var got []j.Rel
+	if p := Try(func() { got = s.Rels() }); p != "" {
+		x.Fail("C16:underscore:panic", "Rels() panicked on %s: %s", desc, p)
+		return
+	}
+	x.R.Add("transitions", 1)
+	x.Render(desc)
+	x.R.Mark("nontrivial", mc.Hash(desc, fmt.Sprint(order)))
+	if len(got) != n {
+		x.Fail("C16:underscore:length", "schema %s (type order %v): Rels() lists %d relationships, there are %d two-way pairs: %s", desc, order, len(got), n, showRels(got))
+	}
+}
+
 func init() {
 	Register(&Prop{
 		ID: "C16",
@@ -388,6 +436,7 @@ func init() {
 			{Name: "C16/laws", Body: c16Laws, ShardDepth: 1},
 			{Name: "C16/rels", Body: c16Rels, Dev: func() int { return 1 }},
 			{Name: "C16/incremental", Body: c16Incremental},
+			{Name: "C16/underscore", Body: c16Underscore},
 		},
 	})
 }
